@@ -29,7 +29,7 @@ Definition run_state (v : variant) (le : bool) (o : ipv6_oracle) (st : kstate) (
   let files := k_files le st in
   let procs := to_procs (k_procs st) in
   JL [ JL (map (fun n => jopt JB (files n)) file_names);
-       jbool (wf_state st && files_text_safe le st && (o_ntop6 o || negb (o_supported o)));
+       jbool (wf_state st && files_text_safe le st && unix_guard v st && (o_ntop6 o || negb (o_supported o)));
        JL (map (fun k => JL [ jv_outcome jrows (net_connections v le o files procs k);
                               jv_outcome jrows (net_connections_adds v le o files procs k);
                               jlog (net_log v le o files procs k);
